@@ -57,7 +57,7 @@ class Play:
         self.warnings = []
 
     # ---- one observation/expectation round
-    def check_round(self, obs, run_expected, what):
+    def check_round(self, obs, run_expected, what, ignore_result=False):
         """obs = ("ok", value) | ("exc", exception); run_expected() drives the interpreter over the log."""
         it = self.interp
         it.begin(list(self.H.log))
@@ -73,7 +73,7 @@ class Play:
         if exp[0] == "ok":
             if obs[0] != "ok":
                 raise Fail("unexpected-exception", f"{what}: raised {obs[1]!r}, expected result {exp[1]!r}")
-            if not result_matches(exp[1], obs[1]):
+            if not ignore_result and not result_matches(exp[1], obs[1]):
                 raise Fail("wrong-result", f"{what}: returned {obs[1]!r}, expected {exp[1]!r}")
         else:
             if obs[0] != "exc":
@@ -100,15 +100,27 @@ class Play:
         r = self.rendered
         self.H = r.new_H()
         self.H.depth = bool(self.case.get("depth"))
-        self.interp = Interp(self.spec, rtc=self.rtc, allow=self.allow, is_async=self.is_async)
+        all_provs = {c["prov"] for c in self.spec["cbs"]} | {g["prov"] for g in self.spec.get("guards", [])}
+        self.is_async = is_async_spec(self.spec, all_provs - set(self.late))
+        self.interp = Interp(self.spec, rtc=self.rtc, allow=self.allow, is_async=self.is_async, providers=all_provs - set(self.late))
         self.set_val(self.case.get("val0", {}))
         self.set_fault(self.case.get("faults", {}).get("init"))
         try:
-            self.sm, _ = r.make(rtc=self.rtc, allow=self.allow, Hh=self.H, late=self.late)
+            self.sm, _ = r.make(rtc=self.rtc, allow=self.allow, Hh=self.H)
             obs = ("ok", None)
-        except Boom as e:
-            obs = ("exc", e)
-            raise Fail("skip", "failure injected into construction")  # not a scenario of this family
+        except (Boom, TransitionNotAllowed) as e:
+            # a failure during initial activation escapes from the constructor: there is no machine to go on with.
+            self.H.log[:] = [t for t in self.H.log if t[0] != "G"]
+            it = self.interp
+            it.begin(list(self.H.log))
+            try:
+                it.activate()
+            except (ExpBoom, ExpTNA) as exp:
+                d = exc_matches(exp, e, self.H)
+                if d:
+                    raise Fail("wrong-exception", f"construction: {d}")
+                raise Fail("skip", "initial activation fails (as expected)")
+            raise Fail("unexpected-exception", f"construction raised {e!r}")
         # names that resolve to properties/attributes are read once at registration to see whether they are
         # callable: those reads are not guard evaluations
         self.H.log[:] = [t for t in self.H.log if t[0] != "G"]
@@ -119,7 +131,13 @@ class Play:
             if self.sm.current_state_value is not None:
                 raise Fail("async-activated-in-constructor", "state set by the constructor of an async machine")
         else:
-            self.check_round(obs, lambda: self.interp.activate(), "construction")
+            self.check_round(obs, lambda: self.interp.activate(), "construction", ignore_result=True)
+        for p in self.late:  # late listeners are attached after construction (for a sync machine: after activation)
+            if p in self.H.objs:
+                self.sm.add_listener(self.H.objs[p])
+            self.interp.providers.add(p)
+        self.is_async = self.interp.is_async = is_async_spec(self.spec)
+        self.H.log[:] = [t for t in self.H.log if t[0] != "G"]
 
     def set_val(self, upd):
         for k, v in upd.items():
@@ -137,7 +155,7 @@ class Play:
         self.construct()
         if self.is_async and self.explicit_activate:
             obs = self._obs(lambda: self.sm.activate_initial_state())
-            self.check_round(("ok", None) if obs[0] == "ok" else obs, lambda: self.interp.activate(), "activate_initial_state()")
+            self.check_round(obs, lambda: self.interp.activate(), "activate_initial_state()", ignore_result=True)
         for i, step in enumerate(self.case["history"]):
             self.set_val(step.get("val", {}))
             self.set_fault(self.case.get("faults", {}).get(str(i)))
@@ -167,7 +185,7 @@ class Play:
         self.construct()
         if self.is_async and self.explicit_activate:
             obs = await self._aobs(lambda: self.sm.activate_initial_state())
-            self.check_round(("ok", None) if obs[0] == "ok" else obs, lambda: self.interp.activate(), "activate_initial_state()")
+            self.check_round(obs, lambda: self.interp.activate(), "activate_initial_state()", ignore_result=True)
         for i, step in enumerate(self.case["history"]):
             self.set_val(step.get("val", {}))
             self.set_fault(self.case.get("faults", {}).get(str(i)))
@@ -227,8 +245,11 @@ def construct_cfg_ok(case):
     return not (is_async_spec(spec) and not cfg.get("rtc", True))
 
 
-def outcome(ok, signature="", detail="", nontrivial=False, labels=(), stats=None):
-    return {"ok": ok, "signature": signature, "detail": detail, "nontrivial": nontrivial, "labels": list(labels), "stats": stats or {}}
+def outcome(ok, signature="", detail="", nontrivial=False, labels=(), stats=None, case=None):
+    out = {"ok": ok, "signature": signature, "detail": detail, "nontrivial": nontrivial, "labels": list(labels), "stats": stats or {}}
+    if case is not None:
+        out["case"] = case  # the (smaller) case that reproduces the failure, used for the replay file
+    return out
 
 
 def play_case(case, play_cls=Play, pid="C00"):
